@@ -36,7 +36,8 @@ def check_interval(ctx, case):
     from votekit.pref_interval import PreferenceInterval, combine_preference_intervals
 
     d = case["interval"]
-    o = observe(PreferenceInterval, dict(d))
+    dd = dict(d)
+    o = observe(PreferenceInterval, dd)
     ctx.count("intervals_checked")
     ctx.case(case, nontrivial=len(d) >= 3 and any(v == 0 for v in d.values()))
     if not o.ok:
@@ -52,6 +53,19 @@ def check_interval(ctx, case):
         ctx.fail("PreferenceInterval: supports are not rescaled to sum to one", case, {"got": dict(pi.interval)})
         return
     ctx.count("table_cells", len(nz))
+    # used as an operand (alone, and together with itself) the object and the dictionary it was made from stay as they were
+    first = (dict(pi.interval), set(pi.zero_cands), set(pi.non_zero_cands), set(pi.candidates))
+    for ivs, cohs in (([pi], [1.0]), ([pi], [0.5]), ([pi, pi], [0.25, 0.75])):
+        oc = observe(combine_preference_intervals, ivs, cohs)
+        ctx.count("interval_reused_as_operand")
+        if (dict(pi.interval), set(pi.zero_cands), set(pi.non_zero_cands), set(pi.candidates)) != first or dd != d:
+            ctx.fail("combine_preference_intervals changed its operand (or PreferenceInterval changed the dictionary it was given)", case, {})
+            return
+        if len(ivs) == 1 and oc.ok and cohs == [1.0]:
+            ci = oc.value
+            if set(ci.interval) != set(nz) or set(ci.zero_cands) != z or any(not close(ci.interval[c], nz[c]) for c in nz):
+                ctx.fail("combine_preference_intervals([x], [1]) is not x", case, {"got": dict(ci.interval)})
+                return
 
 
 def ref_combined(params, bloc):
@@ -183,6 +197,35 @@ def check_models(ctx, case):
                          case, {"bloc": b, "type": bad[:1], "got": [tab[k] for k in bad[:1]], "exp": [float(rt[k]) for k in bad[:1]]})
                 return
             ctx.count("table_cells", len(rt))
+    # the tables are definitions, not working storage: re-read after the generators have produced profiles they are the same
+    rnd = ctx.sub_rnd(canon.jhash(case))
+    for model in ("name_BradleyTerry", "slate_BradleyTerry", "name_PlackettLuce"):
+        if (model == "name_BradleyTerry" and n > 6) or (model == "slate_BradleyTerry" and not (len(blocs) == 2 and n <= 7)):
+            continue
+        og = observe(bp.make, model, p)
+        if not og.ok:
+            continue
+        g = og.value
+
+        def read():
+            out = {"iv": {b: (dict(iv.interval), sorted(iv.zero_cands)) for b, iv in getattr(g, "pref_interval_by_bloc", {}).items()},
+                   "by": {b: {s: (dict(iv.interval), sorted(iv.zero_cands)) for s, iv in per.items()}
+                          for b, per in g.pref_intervals_by_bloc.items()}}
+            if model == "name_BradleyTerry":
+                out["pdf"] = {b: dict(t) for b, t in g.pdfs_by_bloc.items()}
+            if model == "slate_BradleyTerry":
+                out["pdf"] = {b: dict(t) for b, t in g.ballot_type_pdf.items()}
+            return out
+        t0 = read()
+        for N in (rnd.choice([1, 2, 5]), rnd.choice([3, 8])):
+            ou = observe(g.generate_profile, N)
+            ctx.count("tables_reread_after_use")
+            t1 = read()
+            if t1 != t0:
+                diff = [k for k in t0 if t0[k] != t1.get(k)]
+                ctx.fail(f"{model}: the probability tables / intervals held by the generator changed when it generated a profile", case,
+                         {"changed": diff, "generation_ok": ou.ok})
+                return
 
 
 def run(ctx):
